@@ -112,6 +112,13 @@ def run_and_check(rec, F, cnt, prefix='C04', check_temp=True):
                         dirichlet0[(ei, 0)] = x_old[ei, 0]
                     if bc and bc['R'][0] == 'comp':
                         dirichlet0[(ei, N - 1)] = x_old[ei, N - 1]
+                    # the fixed node holds the PRESCRIBED composition (less the documented shift of the initial profile away from 0 and 1)
+                    for side, node in (('L', 0), ('R', N - 1)):
+                        if bc and bc[side][0] == 'comp':
+                            v = float(bc[side][1])
+                            want = v - len(cfg['all_elements']) * minC if v > minC else minC
+                            if abs(float(x_old[ei, node]) - want) > 4 * np.spacing(max(abs(want), 1e-300)):
+                                F.add(prefix + '.dirichlet_value', f'element {e}: node {node} has a fixed-composition condition {v!r} but starts the run at {float(x_old[ei, node])!r} (expected {want!r})', side=side)
             if len(calls) != len(wts):
                 F.add(prefix + '.stage_count', f'call {ci} step {j}: {len(calls)} flux evaluations for iterator {op["it"]}', where='iterator')
                 continue
